@@ -2,7 +2,7 @@
 // The sink takes the first k bytes of what it is handed in a scripted call and reports an error, then
 // works again; the caller goes on — with the unwritten remainder of the chunk (as the returned count
 // tells it), or with whatever comes next.  Compared: the real writer, the model (driver op `writes`,
-// the transliteration of the Go code, which keeps the writer's state over a failed call) and the
+// the transliteration of the Go code, which carries the state a failed call left on) and the
 // executable specification (driver op `spec.writes`, Goyang.Spec.Indent.history): the bytes accepted
 // in successive calls are rendered as ONE text — the prefix in front of every byte that starts a
 // line, none in the middle of an open line — and every count is truthful, as long as no cut fell
@@ -19,9 +19,8 @@ import (
 	"verif/harness/lib"
 )
 
-// knownShortState is the id of the known finding of the unchanged tree (known_findings.txt): after a
-// short write the writer's line state is that of the END of the argument, not of the cut.
-const knownShortState = "D20-M1"
+// (This stage found D20-M1 — after a short write the writer kept the line state of the END of the
+// argument, not of the cut — repaired in /repo 8883425; no history is tagged as known any more.)
 
 // hcase is one history: per Write call the chunk and what the sink does with what it is handed in
 // that call (Ks[i] < 0: takes everything; otherwise takes min(Ks[i], len) bytes and reports an error).
@@ -285,25 +284,6 @@ func parseSpec(ans string) (string, []string) {
 	return p[0], strings.Fields(p[1])
 }
 
-// knownShape: some short write of the history (before any cut inside a prefix) leaves, per the
-// specification, a line state other than the one the unchanged code records (that of the end of the
-// chunk: at a line start iff the chunk ends in a line feed).
-func knownShape(c hcase, states []string) bool {
-	for i, st := range states {
-		if i >= len(c.Chunks) || st == "x" {
-			return false
-		}
-		ch, _ := lib.UnHex(c.Chunks[i])
-		if c.Ks[i] < 0 || len(ch) == 0 {
-			continue
-		}
-		if (st == "1") != (ch[len(ch)-1] == '\n') {
-			return true
-		}
-	}
-	return false
-}
-
 // acceptedText is the concatenation of the caller's bytes the run reports as accepted.
 func acceptedText(c hcase, ns []int) []byte {
 	var acc []byte
@@ -411,9 +391,6 @@ func judgeWith(d *lib.Driver, c hcase, g hrun, model, specAns string) *lib.Disag
 	if !corrOK {
 		dis.Kind = "correspondence"
 	}
-	if corrOK && knownShape(c, states) {
-		dis.Known = knownShortState
-	}
 	return dis
 }
 
@@ -448,7 +425,7 @@ func histories(f *lib.Flags, res *lib.Result, d *lib.Driver, cases []hcase) (int
 	if err != nil {
 		lib.Fatal("driver: %v", err)
 	}
-	known, holds, viol, insidePrefix := int64(0), 0, 0, int64(0)
+	holds, viol, insidePrefix := 0, 0, int64(0)
 	for i, c := range cases {
 		if strings.HasSuffix(ansS[i], " x") {
 			insidePrefix++
@@ -472,11 +449,6 @@ func histories(f *lib.Flags, res *lib.Result, d *lib.Driver, cases []hcase) (int
 			continue
 		}
 		switch {
-		case dis.Known != "":
-			known++
-			if known <= 2 {
-				res.AddDisagreement(*dis)
-			}
 		case dis.SpecVerdict == "violates":
 			viol++
 			if viol <= 40 {
@@ -495,6 +467,5 @@ func histories(f *lib.Flags, res *lib.Result, d *lib.Driver, cases []hcase) (int
 	}
 	res.Distribution["history_cases"] = int64(len(cases))
 	res.Distribution["history_cases_cut_inside_prefix"] = insidePrefix
-	res.Distribution["history_cases_known_"+knownShortState] = known
 	return int64(len(cases)), nontrivial
 }
